@@ -217,9 +217,13 @@ def run(shard, ctx):
                     cases.append(("truncated to %d bytes" % ln, data[:ln]))
             cases.append(("empty file", b""))
             if shard.get("limit"):
+                # quick tier: every truncation, the empty file, format words 3..40 and the powers of two, and a
+                # random sample of the tag-byte edits (each tag byte position is represented)
                 rng.shuffle(cases)
-                keep = [c for c in cases if c[0].startswith(("trunc", "empty"))] + cases[:shard["limit"]]
-                cases = keep
+                always = [c for c in cases if c[0].startswith(("trunc", "empty"))]
+                fmts = [c for c in cases if c[0].startswith("format") and (int(c[0].split()[-1]) <= 40 or int(c[0].split()[-1]) >= 256)]
+                tags = [c for c in cases if "tag byte" in c[0]]
+                cases = always + fmts[:90] + tags[:shard["limit"]]
             for (what, blob) in cases:
                 with open(path, "wb") as f:
                     f.write(blob)
